@@ -346,6 +346,6 @@ func VerifC05_TopicCloseWithBusyPump() {
 		}
 		verifrt.Assert(found == 1, "every-queued-message-is-on-disk-exactly-once-after-close")
 	}
-	verifrt.Reach("pump-moved-some-before-the-close", len(cb.items) > 0)
+	verifrt.Reach("sym:pump-moved-some-before-the-close", len(cb.items) > 0) // schedule-dependent: not replayed natively
 	verifrt.Reach("some-flushed-by-the-topic", len(tb.items) > 0)
 }
